@@ -53,6 +53,10 @@ class SimultaneousScheduler(Scheduler):
             else:
                 break
 
+        if self.running:
+            # all steps were run. time/stoptime is below 1 at the end of a run that stops at a negative time
+            self.progress = max(self.progress, 1.0)
+
     def run_step(self, model, sim_round, step, progress_widget=None, collect_data=True):
         """
         Run one step.
